@@ -18,9 +18,11 @@ dropping a blocking condition or a gate only ADDS interleavings — and do not t
   * an inner observer (made by `new_observer`) is represented by its `fn_next` slot only (`iN`); taking its own terminal
     slot after a successful claim is assumed to succeed (if it fails the closure is simply not called, which is the same
     as never scheduling the thread again);
-  * `finalize` is ONE step (clear all inner `fn_next`, clear `unscribers`, and — if still subscribed — clear the three
-    subscriber slots); `upstream_abort_observe` is two steps (remove key / clear own inner `fn_next`) without modelling
-    that the `unscribers` write lock is held across the second.  `Sctl.lean` has the fine-grained `finalize`.
+  * in `Take`, `finalize` is ONE step (clear all inner `fn_next`, clear `unscribers`, and — if still subscribed — clear
+    the three subscriber slots): with its single serial every `finalize` of take runs after the serial was removed and
+    the subscriber's fn_next was claimed, i.e. changes nothing (co-simulation: 0 rejects).  `Amb` has the fine-grained
+    `finalize` (see there), as `Sctl.lean`.  `upstream_abort_observe` is two steps (remove key / clear own inner
+    `fn_next`) without modelling that the `unscribers` write lock is held across the second.
 `is_subscribed` is one atomic step (sound: `Sctl.isSub_linearizable`).
 -/
 namespace Rx.Conc
@@ -155,6 +157,18 @@ end Take
 namespace Amb
 open Rx Rx.Conc.Sctl
 
+/-
+`finalize` is FINE-GRAINED here (as in `Sctl.lean`, with an inner observer represented by its fn_next): co-simulation of
+the real code (harness/conc/src/sctl.rs, `rxmodel cosim amb`) refuted the one-step version — the winner's `finalize`
+unsubscribes the losers' inner observers one by one under the `unscribers` READ lock, releases it, and only then takes
+the write lock to clear the map; a loser whose `upstream_abort_observe` gets the write lock in between still finds its
+key (`remove` = Some) and unsubscribes its inner observer a second time (`abort2`), which a `finalize` that clears the
+map in the same step as the slots cannot show; with three inputs the slots of two losers are also cleared at different
+times.  Writers of `unscribers` (`abort1`, `fClear`) wait for `readers = 0`; that `upstream_abort_observe` keeps the
+write lock across `abort2` is still not modelled (more interleavings).  The order in which `finalize` visits the keys is
+chosen by the label (`pick`).
+-/
+
 inductive Pc where
   | idle
   | fetchI                    -- obs_i.next(x): fetch inner fn_next_i
@@ -163,13 +177,19 @@ inductive Pc where
   | fetch                     -- subscriber.next: fetch fn_next
   | start                     -- next callback starts (ghost log)
   | cb                        -- next callback returns
-  | abort1                    -- loser: upstream_abort_observe: remove(serial)
+  | abort1                    -- loser: upstream_abort_observe: unscribers.write().remove(serial)
   | abort2                    --        unsubscribe own inner observer (clear inner fn_next_i)
   | claimI                    -- obs_i.complete(): claim inner fn_next_i
   | winC                      -- is_win(serial) in the complete closure
   | fSub                      -- sink_complete_force: is_subscribed()                    stream_controller.rs:118
   | tClaim | tClr | tTake | tStart | tCb
-  | fin                       -- finalize() (one step)
+  -- finalize()                                                                          stream_controller.rs:132-145
+  | fLock                     -- unscribers.read(): acquire, snapshot keys
+  | fPick (pend : List Nat)   -- for_each: next key (order = label) / release the read lock when none is left
+  | fU (pend : List Nat) (j : Nat)   -- o_j.unsubscribe(): clear inner fn_next_j
+  | fClear                    -- unscribers.write().clear()
+  | fEnd                      -- `if subscriber.is_subscribed() { subscriber.unsubscribe() }` in one step (the body is
+                              -- never entered on the recorded runs; kept as in the one-step version); on_finalize: None
 deriving Repr, DecidableEq, Inhabited
 
 structure Thread where
@@ -182,6 +202,7 @@ structure State where
   winner : Option Nat := none
   iN : List Bool
   live : List Bool
+  readers : Nat := 0          -- holders of unscribers' read lock (writers wait for 0)
   sN : Bool := true
   sE : Bool := true
   sC : Bool := true
@@ -191,6 +212,12 @@ deriving Repr, DecidableEq
 
 def State.isSub (s : State) : Bool := s.sN && s.sE && s.sC
 def State.upd (s : State) (i : Nat) (th : Thread) : State := { s with threads := s.threads.set i th }
+
+/-- label = scheduled thread (+ the key picked by the HashMap iteration when the thread is at `fPick`) -/
+structure Label where
+  tid : Nat
+  pick : Nat := 0
+deriving Repr, DecidableEq
 
 def init (scripts : List (List Data × Bool)) : State :=
   { iN := List.replicate scripts.length true, live := List.replicate scripts.length true,
@@ -202,7 +229,8 @@ def wins (s : State) (i : Nat) : Bool :=
   | none => true
   | some w => w == i
 
-def step (s : State) (i : Nat) : Option State :=
+def step (s : State) (l : Label) : Option State :=
+  let i := l.tid
   match s.threads[i]? with
   | none => none
   | some th =>
@@ -218,40 +246,52 @@ def step (s : State) (i : Nat) : Option State :=
       some ({ s with winner := if s.winner.isNone then some i else s.winner }.upd i
         { th with todo := if wins s i then th.todo else th.todo.tail, pc := if wins s i then .sub else .abort1 })
     | .sub => some (s.upd i { th with todo := if s.isSub then th.todo else th.todo.tail,
-                                      pc := if s.isSub then .fetch else .fin })
+                                      pc := if s.isSub then .fetch else .fLock })
     | .fetch => some (s.upd i { th with todo := if s.sN then th.todo else th.todo.tail,
                                         pc := if s.sN then .start else .idle })
     | .start => some ({ s with log := logNext s.log i th.todo }.upd i { th with todo := th.todo.tail, pc := .cb })
     | .cb => some (s.upd i { th with pc := .idle })
-    | .abort1 => some ({ s with live := s.live.set i false }.upd i { th with pc := if get s.live i then .abort2 else .idle })
+    | .abort1 =>
+      if s.readers = 0 then
+        some ({ s with live := s.live.set i false }.upd i { th with pc := if get s.live i then .abort2 else .idle })
+      else none
     | .abort2 => some ({ s with iN := s.iN.set i false }.upd i { th with pc := .idle })
     | .claimI => some ({ s with iN := s.iN.set i false }.upd i { th with pc := if get s.iN i then .winC else .idle })
     | .winC =>
       some ({ s with winner := if s.winner.isNone then some i else s.winner }.upd i
         { th with pc := if wins s i then .fSub else .abort1 })
-    | .fSub => some (s.upd i { th with pc := if s.isSub then .tClaim else .fin })
-    | .tClaim => some ({ s with sN := false }.upd i { th with pc := if s.sN then .tClr else .fin })
+    | .fSub => some (s.upd i { th with pc := if s.isSub then .tClaim else .fLock })
+    | .tClaim => some ({ s with sN := false }.upd i { th with pc := if s.sN then .tClr else .fLock })
     | .tClr => some ({ s with sE := false }.upd i { th with pc := .tTake })
-    | .tTake => some ({ s with sC := false }.upd i { th with pc := if s.sC then .tStart else .fin })
+    | .tTake => some ({ s with sC := false }.upd i { th with pc := if s.sC then .tStart else .fLock })
     | .tStart => some ({ s with log := s.log ++ [(i, Ev.complete)] }.upd i { th with pc := .tCb })
-    | .tCb => some (s.upd i { th with pc := .fin })
-    | .fin =>
-      some ({ s with iN := List.replicate s.iN.length false, live := List.replicate s.live.length false,
-                     sN := s.sN && !s.isSub, sE := s.sE && !s.isSub, sC := s.sC && !s.isSub }.upd i
+    | .tCb => some (s.upd i { th with pc := .fLock })
+    | .fLock => some ({ s with readers := s.readers + 1 }.upd i { th with pc := .fPick (keysOf s.live) })
+    | .fPick pend =>
+      if pend = [] then some ({ s with readers := s.readers - 1 }.upd i { th with pc := .fClear })
+      else if l.pick ∈ pend then some (s.upd i { th with pc := .fU (pend.erase l.pick) l.pick })
+      else none
+    | .fU pend j => some ({ s with iN := s.iN.set j false }.upd i { th with pc := .fPick pend })
+    | .fClear =>
+      if s.readers = 0 then
+        some ({ s with live := List.replicate s.live.length false }.upd i { th with pc := .fEnd })
+      else none
+    | .fEnd =>
+      some ({ s with sN := s.sN && !s.isSub, sE := s.sE && !s.isSub, sC := s.sC && !s.isSub }.upd i
               { th with pc := .idle })
 
 inductive Reachable (scripts : List (List Data × Bool)) : State → Prop
   | init : Reachable scripts (init scripts)
-  | step {s s' i} : Reachable scripts s → step s i = some s' → Reachable scripts s'
+  | step {s s' l} : Reachable scripts s → step s l = some s' → Reachable scripts s'
 
-def run (s : State) : List Nat → Option State
+def run (s : State) : List Label → Option State
   | [] => some s
-  | i :: is => match step s i with
+  | l :: ls => match step s l with
     | none => none
-    | some s' => run s' is
+    | some s' => run s' ls
 
 theorem reachable_of_run {scripts : List (List Data × Bool)} {s : State}
-    (h : Reachable scripts s) : ∀ (ls : List Nat) (s' : State), run s ls = some s' → Reachable scripts s' := by
+    (h : Reachable scripts s) : ∀ (ls : List Label) (s' : State), run s ls = some s' → Reachable scripts s' := by
   intro ls
   induction ls generalizing s with
   | nil => intro s' h'; simp [run] at h'; subst h'; exact h
@@ -262,10 +302,20 @@ theorem reachable_of_run {scripts : List (List Data × Bool)} {s : State}
     | none => simp [hs] at h'
     | some s1 => simp only [hs] at h'; exact ih (Reachable.step h hs) s' h'
 
-def rep (n i : Nat) : List Nat := List.replicate n i
+/-- `n` consecutive steps of thread `i` (outside `finalize`'s loop: pick 0) -/
+def rep (n i : Nat) : List Label := List.replicate n { tid := i }
 
-/-- text format of a label: `<tid>` -/
-def parseLabel (line : String) : Option Nat := line.trimAscii.toString.toNat?
+/-- one step of thread `i` visiting key `j` in `finalize`'s loop -/
+def pk (i j : Nat) : List Label := [{ tid := i, pick := j }]
+
+/-- text format of a label: `<tid>` or `<tid> <key>` -/
+def parseLabel (line : String) : Option Label :=
+  match (line.trimAscii.toString.splitOn " ").filter (· ≠ "") with
+  | [t] => t.toNat?.map fun n => { tid := n }
+  | [t, k] => match t.toNat?, k.toNat? with
+    | some n, some j => some { tid := n, pick := j }
+    | _, _ => none
+  | _ => none
 
 end Amb
 
